@@ -138,13 +138,14 @@ const (
 	OpPoolGC
 	OpEngine // RegisterEngine + MustCompile of a registry-hit pattern
 	OpReplaceAt
+	OpMarshalRoundTrip // MarshalText, UnmarshalText into a new Regexp value, match with it
 	nOpKinds
 )
 
 var opNames = [...]string{"MatchString", "MatchRunes", "FindStringMatch+walk", "FindRunesMatch+walk", "FindStringMatchStartingAt+walk",
 	"FindRunesMatchStartingAt+walk", "FindAllStringIndex", "FindAllRunesIndex", "Replace", "ReplaceFunc", "Split", "Walk2",
 	"compat.MatchString", "compat.FindStringSubmatchIndex", "compat.FindAllStringSubmatch", "compat.FindAllIndex", "compat.FindReaderSubmatchIndex",
-	"GroupInfo", "Idle", "StopTimeoutClock", "Barrier", "PoolGC", "RegisterEngine+MustCompile", "Replace(startAt)"}
+	"GroupInfo", "Idle", "StopTimeoutClock", "Barrier", "PoolGC", "RegisterEngine+MustCompile", "Replace(startAt)", "MarshalText+UnmarshalText+MatchString"}
 
 type Op struct {
 	Kind      int       `json:"kind"`
